@@ -511,3 +511,500 @@ Definition ex_stale : trace :=
 Example ex_fresh_dial_reject :
   kaccepts ex_stale = false /\ check_case ex_stale = [(8%nat, 1%N); (8%nat, 2%N)].
 Proof. split; vm_compute; reflexivity. Qed.
+
+(** * Shared outcome
+
+    Invariant of the specification machine: what a thread has returned is
+    [kexpect] of its source, and [kexpect], once decided, never changes. *)
+
+Lemma kstep_d_final ks e d a o :
+  kinv ks -> k_d ks d = Some (a, o) -> (o = DOk \/ exists cls, o = DFail cls true) ->
+  k_d (fst (kstep ks e)) d = Some (a, o).
+Proof.
+  intros K Hd Hfin.
+  assert (U : forall x v, (k_d ks x = None \/ (exists a1, k_d ks x = Some (a1, DPend)) \/
+                           (exists a1 cls, k_d ks x = Some (a1, DFail cls false))) ->
+                          upd (k_d ks) x v d = Some (a, o)).
+  { intros x v Hx. upd_cases d x; [|exact Hd]. subst x. exfalso.
+    destruct Hx as [Hx|[(a1 & Hx)|(a1 & cls & Hx)]]; rewrite Hd in Hx; try discriminate;
+      inversion Hx; subst; destruct Hfin as [X|(c & X)]; discriminate. }
+  destruct e as [i a0 known|i|d0 ok|d0|i|i]; cbn [kstep].
+  - destruct (k_thr ks i) eqn:Ei; [exact Hd|].
+    pose proof (kd_none_of_fresh ks i K Ei) as Hdi.
+    destruct (k_cancel ks i); [exact Hd|].
+    destruct (k_as ks a0); [destruct known|..]; cbn; try exact Hd; apply U; auto.
+  - destruct (k_thr ks i) as [t|]; [|exact Hd]. destruct (k_ret t); [exact Hd|].
+    destruct (k_passed t); [exact Hd|].
+    match goal with |- context[kwake ?x] => destruct (kwake x) as [ks2 rets] eqn:Ew end.
+    cbn [fst]. destruct (kwake_rel _ _ _ Ew) as (_ & Wd & _). rewrite Wd. exact Hd.
+  - destruct (k_d ks d0) as [[a1 [| |cls f]]|] eqn:Ed; try exact Hd.
+    destruct ok.
+    + match goal with |- context[kwake ?x] => destruct (kwake x) as [ks2 rets] eqn:Ew end.
+      cbn [fst]. destruct (kwake_rel _ _ _ Ew) as (_ & Wd & _). rewrite Wd. cbn. apply U. eauto.
+    + cbn. apply U. eauto.
+  - destruct (k_d ks d0) as [[a1 [| |cls [|]]]|] eqn:Ed; try exact Hd.
+    match goal with |- context[kwake ?x] => destruct (kwake x) as [ks2 rets] eqn:Ew end.
+    cbn [fst]. destruct (kwake_rel _ _ _ Ew) as (_ & Wd & _). rewrite Wd. cbn. apply U. eauto 6.
+  - destruct (k_thr ks i) as [t|]; [|exact Hd].
+    destruct (k_ret t) as [[h| |cls]|]; try exact Hd. destruct (k_rel t); [exact Hd|].
+    match goal with |- context[existsb ?f ?l] => destruct (existsb f l) end; cbn; exact Hd.
+  - destruct (k_d ks i) as [[a1 [| |cls f]]|] eqn:Ed; cbn; try exact Hd. apply U. eauto.
+Qed.
+
+Lemma kstep_expect_stable ks e src r :
+  kinv ks -> kexpect ks src = Some r -> kexpect (fst (kstep ks e)) src = Some r.
+Proof.
+  intros K. destruct src as [|d|h]; cbn; auto.
+  destruct (k_d ks d) as [[a [| |cls [|]]]|] eqn:Ed; try discriminate; intros H.
+  - rewrite (kstep_d_final ks e d a DOk K Ed); auto.
+  - rewrite (kstep_d_final ks e d a (DFail cls true) K Ed); eauto.
+Qed.
+
+(** where a thread of the next state comes from *)
+Definition thr_origin (ks ks' : kstate) (i : nat) : Prop :=
+  forall t', k_thr ks' i = Some t' ->
+  k_ret t' = None \/ k_ret t' = kexpect ks' (k_src t') \/
+  (exists t, k_thr ks i = Some t /\ k_src t' = k_src t /\ k_ret t' = k_ret t).
+
+Lemma thr_origin_refl ks i : thr_origin ks ks i.
+Proof. intros t E. right. right. exists t. auto. Qed.
+
+Lemma thr_origin_wake ks ks1 ks2 out i :
+  thr_origin ks ks1 i -> k_d ks1 = k_d ks1 -> wake_rel ks1 ks2 out -> thr_origin ks ks2 i.
+Proof.
+  intros H1 _ (_ & Wd & _ & _ & _ & Ht & _) t2 E2. specialize (Ht i).
+  destruct (k_thr ks1 i) as [t1|] eqn:E1; [|congruence].
+  destruct Ht as (t' & E' & Hs & _ & Hret). assert (t' = t2) by congruence. subst t'.
+  destruct Hret as [Hret|[_ Hret]].
+  - destruct (H1 t1 E1) as [X|[X|(t & Et & Hst & Hrt)]].
+    + left. congruence.
+    + right. left. rewrite Hret, Hs, (kexpect_d ks1 ks2) by exact Wd. exact X.
+    + right. right. exists t. split; [exact Et|]. split; congruence.
+  - right. left. rewrite Hret, Hs. symmetry. apply kexpect_d. exact Wd.
+Qed.
+
+Lemma thr_origin_upd ks ks' i j t0 t1 :
+  k_thr ks i = Some t0 -> k_thr ks' = upd (k_thr ks) i (Some t1) ->
+  k_src t1 = k_src t0 -> k_ret t1 = k_ret t0 -> thr_origin ks ks' j.
+Proof.
+  intros E0 Hk Hs Hr t'. rewrite Hk. upd_cases j i.
+  - subst j. intros E; inversion E; subst t'. right. right. exists t0. auto.
+  - intros E. right. right. exists t'. auto.
+Qed.
+
+Lemma thr_origin_same ks ks' j : k_thr ks' = k_thr ks -> thr_origin ks ks' j.
+Proof. intros Hk t'. rewrite Hk. intros E. right. right. exists t'. auto. Qed.
+
+Lemma thr_origin_new ks ks' i j src ret :
+  k_thr ks' = upd (k_thr ks) i (Some {| k_src := src; k_passed := false; k_ret := ret; k_rel := false |}) ->
+  ret = None \/ ret = kexpect ks' src -> thr_origin ks ks' j.
+Proof.
+  intros Hk Hr t'. rewrite Hk. upd_cases j i.
+  - intros E; inversion E; subst t'. cbn. destruct Hr; auto.
+  - intros E. right. right. exists t'. auto.
+Qed.
+
+Lemma kstep_thr_origin ks e j : thr_origin ks (fst (kstep ks e)) j.
+Proof.
+  destruct e as [i a known|i|d ok|d|i|i]; cbn [kstep].
+  - destruct (k_thr ks i) eqn:Ei; [apply thr_origin_refl|].
+    destruct (k_cancel ks i); [eapply thr_origin_new; [reflexivity|right; reflexivity]|].
+    destruct (k_as ks a); [destruct known|..]; cbn [fst]; (eapply thr_origin_new; [reflexivity|left; reflexivity]).
+  - destruct (k_thr ks i) as [t|] eqn:Ei; [|apply thr_origin_refl].
+    destruct (k_ret t) eqn:Er; [apply thr_origin_refl|].
+    destruct (k_passed t); [apply thr_origin_refl|].
+    match goal with |- context[kwake ?x] => destruct (kwake x) as [ks2 rets] eqn:Ew end.
+    cbn [fst]. eapply thr_origin_wake; [|reflexivity|apply kwake_rel; exact Ew].
+    eapply thr_origin_upd; [exact Ei|reflexivity|reflexivity|cbn; congruence].
+  - destruct (k_d ks d) as [[a [| |cls f]]|]; try apply thr_origin_refl.
+    destruct ok.
+    + match goal with |- context[kwake ?x] => destruct (kwake x) as [ks2 rets] eqn:Ew end.
+      cbn [fst]. eapply thr_origin_wake; [|reflexivity|apply kwake_rel; exact Ew].
+      apply thr_origin_same. reflexivity.
+    + cbn [fst]. apply thr_origin_same. reflexivity.
+  - destruct (k_d ks d) as [[a [| |cls [|]]]|]; try apply thr_origin_refl.
+    match goal with |- context[kwake ?x] => destruct (kwake x) as [ks2 rets] eqn:Ew end.
+    cbn [fst]. eapply thr_origin_wake; [|reflexivity|apply kwake_rel; exact Ew].
+    apply thr_origin_same. reflexivity.
+  - destruct (k_thr ks i) as [t|] eqn:Ei; [|apply thr_origin_refl].
+    destruct (k_ret t) as [[h| |cls]|] eqn:Er; try apply thr_origin_refl.
+    destruct (k_rel t) eqn:Erl; [apply thr_origin_refl|].
+    match goal with |- context[existsb ?f ?l] => destruct (existsb f l) end; cbn [fst];
+      (eapply thr_origin_upd; [exact Ei|reflexivity|reflexivity|cbn; congruence]).
+  - destruct (k_d ks i) as [[a [| |cls f]]|]; cbn [fst]; apply thr_origin_same; reflexivity.
+Qed.
+
+Definition ret_expect (ks : kstate) : Prop :=
+  forall i t r, k_thr ks i = Some t -> k_ret t = Some r -> kexpect ks (k_src t) = Some r.
+
+Lemma ret_expect_step ks e : kinv ks -> ret_expect ks -> ret_expect (fst (kstep ks e)).
+Proof.
+  intros K R i t' r E Hr. destruct (kstep_thr_origin ks e i t' E) as [X|[X|(t & Et & Hs & Hrt)]].
+  - congruence.
+  - congruence.
+  - rewrite Hs. apply kstep_expect_stable; [exact K|]. apply (R i t r Et). congruence.
+Qed.
+
+Lemma kreach_ret_expect c ks : kreach c ks -> ret_expect ks.
+Proof.
+  induction 1 as [|c ks e o Hr IH Hacc].
+  - intros i t r E. discriminate.
+  - destruct (kreach_inv c ks Hr) as (K & _). now apply ret_expect_step.
+Qed.
+
+(** the state the specification machine ends in *)
+Fixpoint kend (ks : kstate) (c : trace) : kstate :=
+  match c with [] => ks | (e, _) :: c' => kend (fst (kstep ks e)) c' end.
+
+Lemma kend_reach post : forall c0 ks,
+  kreach c0 ks -> kaccepts_from ks post = true -> kreach (c0 ++ post) (kend ks post).
+Proof.
+  induction post as [|[e o] post IH]; intros c0 ks Hk Ha; cbn [kend].
+  - now rewrite app_nil_r.
+  - cbn [kaccepts_from] in Ha. destruct (kstep ks e) as [ks1 rk] eqn:Es.
+    apply andb_true_iff in Ha. destruct Ha as [Ha1 Ha2]. cbn [fst].
+    replace (c0 ++ (e, o) :: post) with ((c0 ++ [(e, o)]) ++ post) by (rewrite <- app_assoc; reflexivity).
+    apply IH; [|exact Ha2].
+    replace ks1 with (fst (kstep ks e)) by now rewrite Es. constructor; [exact Hk|]. now rewrite Es.
+Qed.
+
+Lemma kend_app a : forall ks b, kend ks (a ++ b) = kend (kend ks a) b.
+Proof. induction a as [|[e o] a IH]; intros ks b; cbn [app kend]; [reflexivity|apply IH]. Qed.
+
+Lemma kreach_kend c ks : kreach c ks -> ks = kend kinit c.
+Proof.
+  induction 1 as [|c ks e o Hr IH Hacc]; [reflexivity|].
+  rewrite kend_app. cbn [kend]. now rewrite <- IH.
+Qed.
+
+Lemma kend_src post : forall ks j t,
+  k_thr ks j = Some t -> exists t', k_thr (kend ks post) j = Some t' /\ k_src t' = k_src t.
+Proof.
+  induction post as [|[e o] post IH]; intros ks j t E; cbn [kend]; [eauto|].
+  destruct (kstep_thr_mono ks e j t E) as (t1 & E1 & Hs & _).
+  destruct (IH _ j t1 E1) as (t' & E' & Hs'). exists t'. split; [exact E'|congruence].
+Qed.
+
+(** thread j asked for address a and reached the join point while the Dial
+    call of d to a was in flight (observed and not ended), or its own request
+    is the one for which that Dial call was made *)
+Definition joins (c : trace) (j d : nat) : Prop :=
+  exists pre a k o post, c = pre ++ (EReq j a k, o) :: post /\ In j (o_joined (canon o)) /\
+    ((dial_in pre d a /\ ~ ended_in pre d) \/ In (d, a) (o_dials (canon o))).
+
+Lemma kobs_joined ign ks r jn dl f x : In x (o_joined (kobs ign ks r jn dl f)) <-> In x jn.
+Proof. unfold kobs, canon. cbn. apply In_sort_nat. Qed.
+
+Lemma join_src ks j a k d :
+  kinv ks -> In j (o_joined (snd (kstep ks (EReq j a k)))) ->
+  k_d ks d = Some (a, DPend) \/ In (d, a) (o_dials (snd (kstep ks (EReq j a k)))) ->
+  exists t, k_thr (fst (kstep ks (EReq j a k))) j = Some t /\ k_src t = SDial d.
+Proof.
+  intros K. cbn [kstep].
+  destruct (k_thr ks j); [intros H; cbn in H; contradiction|].
+  destruct (k_cancel ks j); [intros H; cbn in H; contradiction|].
+  assert (P : k_d ks d = Some (a, DPend) -> k_as ks a = ADialing d).
+  { intros Hd. exact (kj_d_as ks K d a DPend Hd). }
+  destruct (k_as ks a) as [|d0|d0|h] eqn:Ea; [destruct k|..]; cbn [fst snd]; intros _ [Hd|Hd];
+    try (apply P in Hd; try discriminate);
+    try (apply kobs_dials in Hd; cbn in Hd);
+    try contradiction.
+  - destruct Hd as [Hd|[]]. inversion Hd; subst. cbn. rewrite upd_same. eauto.
+  - inversion Hd; subst d0. cbn. rewrite upd_same. eauto.
+Qed.
+
+(** In a case that K_P accepts, two requests that joined one Dial call (made
+    while it was in flight, or being the one that caused it) and both returned,
+    returned the same thing. *)
+Theorem K_sound_share_outcome c :
+  kaccepts c = true ->
+  forall i j d ri rj, joins c i d -> joins c j d ->
+  returned_in c i ri -> returned_in c j rj -> ri = rj.
+Proof.
+  intros Ha i j d ri rj Hi Hj Hri Hrj.
+  assert (Hf : kreach c (kend kinit c)) by (apply (kend_reach c [] kinit kr_nil Ha)).
+  assert (S : forall x, joins c x d -> exists t, k_thr (kend kinit c) x = Some t /\ k_src t = SDial d).
+  { intros x (pre & a & k & o & post & Hc & Hjn & Hor).
+    destruct (kaccepts_split c pre _ o post Ha Hc) as (ks & Hk & Ho & Hk1 & Hacc).
+    destruct (kreach_inv pre ks Hk) as (K & _).
+    rewrite Ho in Hjn, Hor.
+    assert (Hor' : k_d ks d = Some (a, DPend) \/ In (d, a) (o_dials (snd (kstep ks (EReq x a k))))).
+    { destruct Hor as [[Hd Hne]|Hd]; [left|right; exact Hd].
+      destruct (kreach_dials pre ks Hk d a Hd) as (o1 & Hk1' & [->|He]); [exact Hk1'|contradiction]. }
+    destruct (join_src ks x a k d K Hjn Hor') as (t & Et & Hs).
+    assert (E : kend kinit c = kend (fst (kstep ks (EReq x a k))) post).
+    { rewrite Hc, kend_app. cbn [kend]. rewrite <- (kreach_kend pre ks Hk). reflexivity. }
+    rewrite E. destruct (kend_src post _ x t Et) as (t' & Et' & Hs'). exists t'. split; [exact Et'|congruence]. }
+  destruct (S i Hi) as (ti & Eti & Hsi). destruct (S j Hj) as (tj & Etj & Hsj).
+  destruct (kreach_inv c _ Hf) as (_ & J1 & _).
+  destruct (J1 i ri Hri) as (ti' & Eti' & Hreti). destruct (J1 j rj Hrj) as (tj' & Etj' & Hretj).
+  assert (ti' = ti) by congruence. assert (tj' = tj) by congruence. subst ti' tj'.
+  pose proof (kreach_ret_expect c _ Hf i ti ri Eti Hreti) as X1.
+  pose proof (kreach_ret_expect c _ Hf j tj rj Etj Hretj) as X2.
+  rewrite Hsi in X1. rewrite Hsj in X2. congruence.
+Qed.
+
+Example ex_share_outcome_accept :
+  kaccepts ex_case = true /\ joins ex_case 0 0 /\ joins ex_case 1 0 /\
+  returned_in ex_case 0 (OConn 0) /\ returned_in ex_case 1 (OConn 0).
+Proof.
+  split; [vm_compute; reflexivity|]. split; [|split; [|split]].
+  - exists [], 0%nat, true. eexists. exists (skipn 1 ex_case).
+    split; [vm_compute; reflexivity|]. split; [vm_compute; left; reflexivity|].
+    right. vm_compute. left. reflexivity.
+  - exists (firstn 1 ex_case), 0%nat, true. eexists. exists (skipn 2 ex_case).
+    split; [vm_compute; reflexivity|]. split; [vm_compute; left; reflexivity|]. left. split.
+    + exists (EReq 0 0 true)%nat. eexists. split; [vm_compute; left; reflexivity|vm_compute; left; reflexivity].
+    + intros (e & o & [E|[]] & _ & [H|[H|H]]); rewrite H in E; vm_compute in E; discriminate.
+  - exists (EDial 0 true)%nat. eexists. split; [vm_compute; do 4 right; left; reflexivity|vm_compute; left; reflexivity].
+  - exists (EDial 0 true)%nat. eexists. split; [vm_compute; do 4 right; left; reflexivity|vm_compute; right; left; reflexivity].
+Qed.
+
+(** the joiner gets nil where the creator gets the connection: rejected, tag 3 *)
+Definition ex_unshared : trace :=
+  firstn 4 ex_case ++ [(EDial 0%nat true, Obs false [(0, OConn 0); (1, ONil)]%nat [] [] [] [] 0%N)].
+
+Example ex_share_outcome_reject :
+  kaccepts ex_unshared = false /\ check_case ex_unshared = [(4%nat, 1%N); (4%nat, 3%N)] /\
+  joins ex_unshared 0 0 /\ returned_in ex_unshared 0 (OConn 0) /\ returned_in ex_unshared 1 ONil.
+Proof.
+  split; [vm_compute; reflexivity|]. split; [vm_compute; reflexivity|]. split; [|split].
+  - exists [], 0%nat, true. eexists. exists (skipn 1 ex_unshared).
+    split; [vm_compute; reflexivity|]. split; [vm_compute; left; reflexivity|].
+    right. vm_compute. left. reflexivity.
+  - exists (EDial 0 true)%nat. eexists. split; [vm_compute; do 4 right; left; reflexivity|vm_compute; left; reflexivity].
+  - exists (EDial 0 true)%nat. eexists. split; [vm_compute; do 4 right; left; reflexivity|vm_compute; right; left; reflexivity].
+Qed.
+
+(** * Closed at the last release (no leak) *)
+
+(** thread j asked for address a and reached the join point *)
+Definition asked (c : trace) (j a : nat) : Prop :=
+  exists k o, In (EReq j a k, o) c /\ In j (o_joined (canon o)).
+
+(** thread j may hold, or come to hold, the connection made by Dial call h:
+    it asked for the address h was dialled for and reached the join point
+    (whether it has returned yet or not) *)
+Definition entitled (c : trace) (j h : nat) : Prop := exists a, dial_in c h a /\ asked c j a.
+
+Lemma wake_none ks1 ks2 out j : wake_rel ks1 ks2 out -> k_thr ks1 j = None -> k_thr ks2 j = None.
+Proof. intros (_ & _ & _ & _ & _ & Ht & _) E. specialize (Ht j). now rewrite E in Ht. Qed.
+
+Lemma kstep_thr_dom ks e j :
+  k_thr ks j = None -> (forall a k, e <> EReq j a k) -> k_thr (fst (kstep ks e)) j = None.
+Proof.
+  intros E Hne.
+  assert (U : forall i v, i <> j -> upd (k_thr ks) i v j = None).
+  { intros i v Hn. upd_cases j i; [congruence|exact E]. }
+  destruct e as [i a known|i|d ok|d|i|i]; cbn [kstep].
+  - destruct (k_thr ks i) eqn:Ei; [exact E|].
+    assert (i <> j) by (intros ->; exact (Hne a known eq_refl)).
+    destruct (k_cancel ks i); [cbn; now apply U|].
+    destruct (k_as ks a); [destruct known|..]; cbn; now apply U.
+  - destruct (k_thr ks i) as [t|] eqn:Ei; [|exact E]. destruct (k_ret t); [exact E|].
+    destruct (k_passed t); [exact E|].
+    match goal with |- context[kwake ?x] => destruct (kwake x) as [ks2 rets] eqn:Ew end.
+    cbn [fst]. apply (wake_none _ _ _ j (kwake_rel _ _ _ Ew)). cbn. apply U. congruence.
+  - destruct (k_d ks d) as [[a [| |cls f]]|]; try exact E. destruct ok; [|exact E].
+    match goal with |- context[kwake ?x] => destruct (kwake x) as [ks2 rets] eqn:Ew end.
+    cbn [fst]. apply (wake_none _ _ _ j (kwake_rel _ _ _ Ew)). exact E.
+  - destruct (k_d ks d) as [[a [| |cls [|]]]|]; try exact E.
+    match goal with |- context[kwake ?x] => destruct (kwake x) as [ks2 rets] eqn:Ew end.
+    cbn [fst]. apply (wake_none _ _ _ j (kwake_rel _ _ _ Ew)). exact E.
+  - destruct (k_thr ks i) as [t|] eqn:Ei; [|exact E].
+    destruct (k_ret t) as [[h| |cls]|]; try exact E. destruct (k_rel t); [exact E|].
+    match goal with |- context[existsb ?f ?l] => destruct (existsb f l) end; cbn; apply U; congruence.
+  - destruct (k_d ks i) as [[a [| |cls f]]|]; cbn; exact E.
+Qed.
+
+(** a new thread whose source is a dial: it reached the join point, and the
+    dial is one for the address it asked for *)
+Lemma req_new ks j a k t' d :
+  kinv ks -> k_thr ks j = None -> k_thr (fst (kstep ks (EReq j a k))) j = Some t' ->
+  k_src t' = SDial d \/ k_src t' = SConn d ->
+  In j (o_joined (snd (kstep ks (EReq j a k)))) /\ exists o, k_d (fst (kstep ks (EReq j a k))) d = Some (a, o).
+Proof.
+  intros K E. cbn [kstep]. rewrite E.
+  assert (J : forall ks' r dl f, In j (o_joined (kobs false ks' r [j] dl f))).
+  { intros. apply kobs_joined. left. reflexivity. }
+  destruct (k_cancel ks j).
+  { cbn. rewrite upd_same. intros X; inversion X; subst t'. cbn. intros [H|H]; discriminate. }
+  destruct (k_as ks a) as [|d0|d0|h] eqn:Ea; [destruct k|..]; cbn [fst snd]; cbn [k_thr kset_thr kset_d kset_as kset_ids];
+    rewrite upd_same; intros X; inversion X; subst t'; cbn [k_src]; intros [H|H]; try discriminate;
+    inversion H; subst; (split; [apply J|]); cbn [k_d kset_d kset_as kset_thr kset_ids].
+  - rewrite upd_same. eauto.
+  - rewrite upd_same. eauto.
+  - rewrite (kj_dialing ks K a d Ea). eauto.
+  - destruct (kj_failing ks K a d Ea) as (cls & ->). eauto.
+  - destruct (kj_live ks K a d Ea) as (_ & ->). eauto.
+Qed.
+
+(** a dial that is pending or established was pending before, or its Dial
+    call is observed in this step *)
+Lemma kstep_d_back ks e d a o :
+  k_d (fst (kstep ks e)) d = Some (a, o) -> o = DPend \/ o = DOk ->
+  (exists o0, k_d ks d = Some (a, o0) /\ (o0 = DPend \/ o0 = DOk)) \/
+  In (d, a) (o_dials (snd (kstep ks e))).
+Proof.
+  intros H Ho.
+  assert (Same : k_d ks d = Some (a, o) ->
+                 (exists o0, k_d ks d = Some (a, o0) /\ (o0 = DPend \/ o0 = DOk)) \/
+                 In (d, a) (o_dials (snd (kstep ks e)))) by (intros X; left; eauto).
+  revert H. destruct e as [i a0 known|i|d0 ok|d0|i|i]; cbn [kstep] in *.
+  - destruct (k_thr ks i) eqn:Ei; [exact Same|]. destruct (k_cancel ks i); [exact Same|].
+    destruct (k_as ks a0); [destruct known|..]; cbn [fst snd]; cbn [k_d kset_d kset_as kset_thr kset_ids];
+      try exact Same.
+    + upd_cases d i; [|intros X; left; eauto]. intros X; inversion X; subst. right.
+      apply kobs_dials. left. reflexivity.
+    + upd_cases d i; [|intros X; left; eauto]. intros X; inversion X; subst. destruct Ho; discriminate.
+  - destruct (k_thr ks i) as [t|]; [|exact Same]. destruct (k_ret t); [exact Same|].
+    destruct (k_passed t); [exact Same|].
+    match goal with |- context[kwake ?x] => destruct (kwake x) as [ks2 rets] eqn:Ew end.
+    cbn [fst snd]. destruct (kwake_rel _ _ _ Ew) as (_ & Wd & _). rewrite Wd. cbn. intros X; left; eauto.
+  - destruct (k_d ks d0) as [[a1 [| |cls f]]|] eqn:Ed; try exact Same.
+    destruct ok.
+    + match goal with |- context[kwake ?x] => destruct (kwake x) as [ks2 rets] eqn:Ew end.
+      cbn [fst snd]. destruct (kwake_rel _ _ _ Ew) as (_ & Wd & _). rewrite Wd. cbn.
+      upd_cases d d0; [|intros X; left; eauto]. subst d0. intros X; inversion X; subst. left. eauto.
+    + cbn. upd_cases d d0; [|intros X; left; eauto]. intros X; inversion X; subst. destruct Ho; discriminate.
+  - destruct (k_d ks d0) as [[a1 [| |cls [|]]]|] eqn:Ed; try exact Same.
+    match goal with |- context[kwake ?x] => destruct (kwake x) as [ks2 rets] eqn:Ew end.
+    cbn [fst snd]. destruct (kwake_rel _ _ _ Ew) as (_ & Wd & _). rewrite Wd. cbn.
+    upd_cases d d0; [|intros X; left; eauto]. intros X; inversion X; subst. destruct Ho; discriminate.
+  - destruct (k_thr ks i) as [t|]; [|exact Same].
+    destruct (k_ret t) as [[h| |cls]|]; try exact Same. destruct (k_rel t); [exact Same|].
+    match goal with |- context[existsb ?f ?l] => destruct (existsb f l) end; cbn; intros X; left; eauto.
+  - destruct (k_d ks i) as [[a1 [| |cls f]]|] eqn:Ed; cbn; try (intros X; left; eauto; fail).
+    upd_cases d i; [|intros X; left; eauto]. intros X; inversion X; subst. destruct Ho; discriminate.
+Qed.
+
+Lemma dial_in_snoc c x d a : dial_in c d a -> dial_in (c ++ [x]) d a.
+Proof. intros (e & o & Hin & H). exists e, o. split; [apply in_app_iff; auto|exact H]. Qed.
+
+Lemma asked_snoc c x j a : asked c j a -> asked (c ++ [x]) j a.
+Proof. intros (k & o & Hin & H). exists k, o. split; [apply in_app_iff; auto|exact H]. Qed.
+
+Lemma kreach_inv3 c ks :
+  kreach c ks ->
+  (forall d a o, k_d ks d = Some (a, o) -> o = DPend \/ o = DOk -> dial_in c d a) /\
+  (forall j t d, k_thr ks j = Some t -> k_src t = SDial d \/ k_src t = SConn d ->
+     exists a o, k_d ks d = Some (a, o) /\ asked c j a).
+Proof.
+  induction 1 as [|c ks e o Hr (Jd & Je) Hacc].
+  - split; intros; discriminate.
+  - destruct (kreach_inv c ks Hr) as (K & _). apply obs_eqb_eq in Hacc. split.
+    + intros d a o1 Hd Ho1. destruct (kstep_d_back ks e d a o1 Hd Ho1) as [(o0 & Hd0 & Ho0)|Hin].
+      * apply dial_in_snoc. eapply Jd; eauto.
+      * exists e, o. split; [apply in_app_iff; right; left; reflexivity|]. now rewrite Hacc.
+    + intros j t' d Et' Hs. destruct (k_thr ks j) as [t|] eqn:Et.
+      * destruct (kstep_thr_mono ks e j t Et) as (t2 & Et2 & Hs2 & _).
+        assert (t2 = t') by congruence. subst t2. rewrite Hs2 in Hs.
+        destruct (Je j t d Et Hs) as (a & o0 & Hd0 & Hask).
+        destruct (kstep_d_mono ks e d a o0 K Hd0) as (o' & Hd' & _).
+        exists a, o'. split; [exact Hd'|now apply asked_snoc].
+      * destruct e as [i a k| | | | | ];
+          try (rewrite kstep_thr_dom in Et' by (auto; intros; discriminate); discriminate).
+        destruct (Nat.eq_dec i j) as [->|Hn];
+          [|rewrite kstep_thr_dom in Et' by (auto; intros ? ? X; inversion X; congruence); discriminate].
+        destruct (req_new ks j a k t' d K Et Et' Hs) as (Hjn & o1 & Hd1).
+        exists a, o1. split; [exact Hd1|]. exists k, o.
+        split; [apply in_app_iff; right; left; reflexivity|]. now rewrite Hacc.
+Qed.
+
+Lemma khandle_expect ks src h : khandle ks src = Some h -> kexpect ks src = Some (OConn h).
+Proof.
+  destruct src as [|d|h']; cbn; try discriminate; [|congruence].
+  destruct (k_d ks d) as [[a [| |cls f]]|]; try discriminate. congruence.
+Qed.
+
+Lemma kstep_release_closes ks i t h :
+  k_thr ks i = Some t -> k_ret t = Some (OConn h) -> k_rel t = false ->
+  (forall j, j <> i -> kholds ks h j = false) ->
+  In h (k_closed (fst (kstep ks (ERelease i)))).
+Proof.
+  intros E Hr Hrl Hn. cbn [kstep]. rewrite E, Hr, Hrl.
+  match goal with |- context[existsb ?f ?l] => destruct (existsb f l) eqn:Ex end; [exfalso|cbn; left; reflexivity].
+  apply existsb_exists in Ex. destruct Ex as (j & _ & Hj).
+  unfold kholds in Hj. cbn [k_thr kset_thr] in Hj. revert Hj. upd_cases j i.
+  - cbn. discriminate.
+  - intros Hj. specialize (Hn j n). unfold kholds in Hn.
+    destruct (k_thr ks j) as [tj|]; [|discriminate].
+    rewrite (khandle_d ks) in Hj by reflexivity.
+    congruence.
+Qed.
+
+(** In a case that K_P accepts: when a thread that was handed handle h
+    releases it for the first time and every other thread entitled to h
+    (it asked for h's address and reached the join point -- returned or not)
+    already has an applied release, then h is shown closed after that very
+    release: no connection is left open by its last holder. *)
+Theorem K_sound_closed_at_last_release c :
+  kaccepts c = true ->
+  forall pre i o post h, c = pre ++ (ERelease i, o) :: post ->
+  returned_in pre i (OConn h) -> ~ released_in pre i ->
+  (forall j, entitled pre j h -> j = i \/ released_in pre j) ->
+  In h (o_closed (canon o)).
+Proof.
+  intros Ha pre i o post h Hc Hret Hnrel Hall.
+  destruct (kaccepts_split c pre _ o post Ha Hc) as (ks & Hk & Ho & _).
+  destruct (kreach_inv pre ks Hk) as (K & J1 & J2).
+  destruct (kreach_inv2 pre ks Hk) as (_ & Jr).
+  destruct (kreach_inv3 pre ks Hk) as (Jd & Je).
+  pose proof (kreach_ret_expect pre ks Hk) as RE.
+  destruct (J1 i _ Hret) as (t & Et & Hrt).
+  assert (Hrl : k_rel t = false).
+  { destruct (k_rel t) eqn:X; [|reflexivity]. exfalso. apply Hnrel. exact (J2 i t Et X). }
+  rewrite Ho, kstep_obs_closed. apply (proj2 (In_closed_canon _ _)).
+  apply (kstep_release_closes ks i t h Et Hrt Hrl).
+  intros j Hji. destruct (kholds ks h j) eqn:Hh; [exfalso|reflexivity].
+  unfold kholds in Hh. destruct (k_thr ks j) as [tj|] eqn:Etj; [|discriminate].
+  apply andb_true_iff in Hh. destruct Hh as [Hnr Hkh].
+  destruct (khandle ks (k_src tj)) as [h'|] eqn:Ekh; [|discriminate].
+  apply Nat.eqb_eq in Hkh. subst h'.
+  assert (Hsrc : k_src tj = SDial h \/ k_src tj = SConn h).
+  { destruct (k_src tj) as [|d|h']; cbn in Ekh; try discriminate.
+    - destruct (k_d ks d) as [[a [| |cls f]]|]; try discriminate. left. congruence.
+    - right. congruence. }
+  destruct (Je j tj h Etj Hsrc) as (a & o0 & Hd0 & Hask).
+  assert (Hok : o0 = DOk).
+  { destruct Hsrc as [Hs|Hs]; rewrite Hs in Ekh; cbn in Ekh.
+    - rewrite Hd0 in Ekh. destruct o0; try discriminate. reflexivity.
+    - destruct (kj_sconn ks K j tj h Etj Hs) as (a' & Hd'). congruence. }
+  assert (Hent : entitled pre j h).
+  { exists a. split; [|exact Hask]. apply (Jd h a o0 Hd0). right. exact Hok. }
+  destruct (Hall j Hent) as [->|Hrelj]; [congruence|].
+  destruct (Jr j Hrelj) as (tj' & r & Etj' & Hr' & Hor).
+  assert (tj' = tj) by congruence. subst tj'.
+  destruct Hor as [X|X].
+  - rewrite X in Hnr. discriminate.
+  - pose proof (RE j tj r Etj Hr') as Y. rewrite (khandle_expect ks _ h Ekh) in Y.
+    apply (X h). congruence.
+Qed.
+
+Example ex_last_release_accept :
+  kaccepts ex_case = true /\
+  (exists o, ex_case = firstn 7 ex_case ++ (ERelease 1%nat, o) :: skipn 8 ex_case /\ In 0%nat (o_closed (canon o))) /\
+  returned_in (firstn 7 ex_case) 1 (OConn 0) /\ ~ released_in (firstn 7 ex_case) 1 /\
+  (forall j, entitled (firstn 7 ex_case) j 0 -> j = 1%nat \/ released_in (firstn 7 ex_case) j).
+Proof.
+  split; [vm_compute; reflexivity|]. split; [|split; [|split]].
+  - eexists. split; [vm_compute; reflexivity|vm_compute; left; reflexivity].
+  - exists (EDial 0 true)%nat. eexists. split; [vm_compute; do 4 right; left; reflexivity|vm_compute; right; left; reflexivity].
+  - intros (o & Hin & _). vm_compute in Hin.
+    repeat (destruct Hin as [E|Hin]; [discriminate E|]). destruct Hin.
+  - intros j (a & _ & k & o & Hin & _). vm_compute in Hin.
+    repeat (destruct Hin as [E|Hin]; [try discriminate E; inversion E; subst|]); try destruct Hin.
+    + right. eexists. split; [vm_compute; do 5 right; left; reflexivity|vm_compute; reflexivity].
+    + left. reflexivity.
+Qed.
+
+(** both holders released and the connection is still open ([ex_leak]): rejected, tag 5 *)
+Example ex_last_release_reject :
+  kaccepts ex_leak = false /\ check_case ex_leak = [(7%nat, 1%N); (7%nat, 5%N)] /\
+  returned_in (firstn 7 ex_leak) 1 (OConn 0) /\
+  (exists o, nth_error ex_leak 7 = Some (ERelease 1%nat, o) /\ ~ In 0%nat (o_closed (canon o))).
+Proof.
+  split; [vm_compute; reflexivity|]. split; [vm_compute; reflexivity|]. split.
+  - exists (EDial 0 true)%nat. eexists. split; [vm_compute; do 4 right; left; reflexivity|vm_compute; right; left; reflexivity].
+  - eexists. split; [vm_compute; reflexivity|vm_compute; tauto].
+Qed.
